@@ -111,6 +111,8 @@ def why(case, impl):
             return "flush-ok-with-bytes-buffered"
         if tok == "c" and res == "ok" and not (fe and pos == len(exp) and evs and evs[-1] == "s:o"):
             return "close-ok-with-bytes-buffered"
+        if tok == "x" and (res != "ok" or evs):
+            return "conversion-touches-transport"
         if tok == "r":
             if not full and not (res == "ok" and not evs):
                 return "ready-below-hw"
@@ -334,12 +336,20 @@ def streams(ctx):
     # the state-preserving conversions (into_parts/from_parts, into_map_io, into_map_codec) before every Sink call
     pool = list(enum) + rnd[:3000 if quick else 60000]
     rng.shuffle(pool)
-    conv = [c.replace(";", "+x;", 1) for c in pool[:4000 if quick else 80000]]
+    conv = [c.replace(";", "+x;", 1) for c in pool[:3000 if quick else 60000]]
+    # explicit conversion calls (model op OConv) placed at random between the Sink calls
+    for c in pool[3000 if quick else 60000:][:2000 if quick else 40000]:
+        f = c.split(";")
+        toks = f[4].split(",") if f[4] else []
+        for _ in range(rng.randint(1, 3)):
+            toks.insert(rng.randint(0, len(toks)), "x")
+        conv.append(";".join(f[:4] + [",".join(toks)]))
     # partial writes that leave a remainder in a buffer whose capacity has shrunk (advance) before the conversion
     for big in (8000, 8192, 7500, 9000, 16000):
         for acc in (7168, 7169, 7600, 8000, 8191, 1, 1024):
             for tail in ("f", "c", "s100x2,f", "r,s5x1,c"):
                 conv.append("bytes+x;a%d,p;;;s%dx1,f,%s" % (acc, big, tail))
+                conv.append("bytes;a%d,p;;;s%dx1,f,x,%s" % (acc, big, tail))
                 conv.append("lines+x;a%d,p,a3,p;;;s%dx3,f,%s" % (acc, big, tail))
     s4 = Stream("c14conv", "c14", conv, monitor=monitor, nontrivial=nontrivial, shrink=shrink, finding_key=finding_key,
                 timeout=300 if quick else 1500,
